@@ -316,9 +316,9 @@ class ZernikeFit:
     """
 
     def __init__(self, x, y, z, zernike_type='fringe', num_terms=36):
-        self.x = x
-        self.y = y
-        self.z = z
+        self.x = np.asarray(x, dtype=float)
+        self.y = np.asarray(y, dtype=float)
+        self.z = np.asarray(z, dtype=float)
         self.type = zernike_type
         self.num_terms = num_terms
 
@@ -478,5 +478,8 @@ class ZernikeFit:
         self.zernike.coeffs = np.ones(self.num_terms)
         terms = self.zernike.terms(np.ravel(self.radius), np.ravel(self.phi))
         A = np.column_stack([term * np.ones(self.num_pts) for term in terms])
-        coeffs, _, _, _ = np.linalg.lstsq(A, np.ravel(self.z), rcond=None)
+        z = np.ravel(self.z)
+        # samples without a value (failed rays) carry no information
+        valid = np.isfinite(z) & np.all(np.isfinite(A), axis=1)
+        coeffs, _, _, _ = np.linalg.lstsq(A[valid], z[valid], rcond=None)
         self.zernike.coeffs = coeffs
